@@ -172,7 +172,7 @@ def _iso8583_to_dict(message, bit_config, encoding=DEFAULT_ENCODING, hex_bitmap=
             message_length = len(message)-20
             message_type_indicator, binary_bitmap, message_data = struct.unpack(
                 "4s16s" + str(message_length) + "s", message)
-    except struct.error as ex:
+    except (struct.error, binascii.Error) as ex:
         raise Iso8583DataError('Failed unpacking bitmap values', binary_context_data=message, original_exception=ex)
     return_values = dict()
 
@@ -347,7 +347,7 @@ def _iso8583_to_field(bit, bit_config, message_data, encoding=DEFAULT_ENCODING):
     # do field conversion to native python type
     try:
         field_data = _string_to_pytype(field_data, bit_config)
-    except ValueError as ex:
+    except (ValueError, ArithmeticError) as ex:
         raise Iso8583DataError(f'Unable to convert DE{bit} field to python type',
                                binary_context_data=message_data, original_exception=ex)
     return_values = dict()
@@ -357,7 +357,11 @@ def _iso8583_to_field(bit, bit_config, message_data, encoding=DEFAULT_ENCODING):
 
     # if a PDS field, break it down again and add to results
     if field_processor == 'PDS':
-        return_values.update(_pds_to_dict(field_data))
+        try:
+            return_values.update(_pds_to_dict(field_data))
+        except ValueError as ex:
+            raise Iso8583DataError(f'Unable to process DE{bit} PDS fields',
+                                   binary_context_data=message_data, original_exception=ex)
 
     # if a DE43 field, break in down again and add to results
     if field_processor == 'DE43':
@@ -366,7 +370,11 @@ def _iso8583_to_field(bit, bit_config, message_data, encoding=DEFAULT_ENCODING):
 
     # if ICC field, break into tags
     if field_processor == 'ICC':
-        return_values.update(_icc_to_dict(field_data))
+        try:
+            return_values.update(_icc_to_dict(field_data))
+        except struct.error as ex:
+            raise Iso8583DataError(f'Unable to process DE{bit} ICC fields',
+                                   binary_context_data=message_data, original_exception=ex)
 
     return return_values, field_length + length_size
 
@@ -539,6 +547,8 @@ def _pds_to_dict(field_data):
 
         # get the pds length
         pds_field_length = int(field_data[field_pointer+4:field_pointer+7])
+        if pds_field_length < 0:  # a negative length would move the pointer backwards
+            raise ValueError(f'Invalid PDS field length {pds_field_length}')
         LOGGER.debug("pds_field_length=[%i]", pds_field_length)
 
         # get the pds data
